@@ -150,6 +150,9 @@ func newWorldWith(nNodes int, cfg *services.ConnectionCodeServiceConfig, gated b
 	w := &world{ctx: ctx, cancel: cancel}
 	if gated {
 		w.g = vkit.NewGate()
+		// no lock of the code under test is held across a storage operation in these programs, so a
+		// "stall" can only be a runnable task that the loaded machine has not scheduled yet: wait long.
+		w.g.Stall = 5 * time.Second
 	}
 	w.cache = vkit.NewGateCache(w.g, "cache")
 	var tier stypes.CacheStorage = w.cache
